@@ -137,6 +137,30 @@ def run(tier: str, seed: int) -> Report:
         for m in ms:
             add(m, "dyn", False, "mutant")
             add(m, c["kind"], False, "mutant")
+    # ---- same-shape variants: a valid response with everything behind the first two bytes randomised (numeric
+    # fields and records take arbitrary values; whatever is accepted must expose and re-encode exactly those bytes)
+    per_base = 100 if tier == "quick" else 2000
+    bases: dict[str, list[bytes]] = {}
+    for c in resp_cases:
+        bases.setdefault(c["kind"], []).append(bytes(c["b"]))
+    for k, bl in sorted(bases.items()):
+        bl = sorted(set(bl), key=lambda x: (len(x), x))
+        picks = {bl[0], bl[len(bl) // 2], bl[-1]}
+        for b in sorted(picks):
+            if len(b) <= 2:
+                continue
+            for _ in range(per_base):
+                v = b[:2] + bytes(rnd.randint(0, 255) for _ in range(len(b) - 2))
+                add(v, "dyn", False, "same-shape-random")
+                add(v, k, False, "same-shape-random")
+        # ... and every tail length 1..8 behind the shortest valid header (e.g. the 4-byte session parameter record)
+        for n in range(1, 9):
+            # 16-bit numeric fields (timing parameters, counts, block lengths) sit in 2- and 4-byte tails: sampled more
+            # densely (conversion / rounding defects hit about one value in a hundred)
+            for _ in range(max(per_base // 4, 10) * (24 if n in (2, 4) else 1)):
+                v = bl[0][:2] + bytes(rnd.randint(0, 255) for _ in range(n))
+                add(v, "dyn", False, "same-shape-random")
+                add(v, k, False, "same-shape-random")
     # ---- random structured byte strings: response SID, plausible second byte, random tail
     nrand = 100 if tier == "quick" else 2500
     second = sorted({row[1]["v"] for row in layout.values() if len(row) > 1 and row[1]["t"] == "sub"} | {0, 1, 0x7F, 0x80})
@@ -235,6 +259,8 @@ def run(tier: str, seed: int) -> Report:
                                      f"length 1..2 of its SID; every TLC-generated valid response")
     rep.extra["response_sids"] = [f"{s:#04x}" for s in sids]
     rep.extra["verdict_classes"] = classes_cnt
+    from harness import c01_bind as _B
+    rep.extra["public_attributes_outside_the_iso_layout"] = {k: sorted(v) for k, v in _B.UNCOVERED_ATTRS.items()}
     rep.extra["tlc_generated_valid_responses"] = len(resp_cases)
     rep.extra["origins"] = {o: sum(1 for m in meta if m["origin"] == o) for o in sorted({m["origin"] for m in meta})}
     rep.extra["spec_to_code_drift"] = drift
